@@ -4,6 +4,7 @@ import sink
 import obs
 
 ID = "C14"
+ENV_RERUN = 40          # cases repeated from a cargo build-script environment (lib/runner.py with_build_env)
 REQUIRES = ["ObsCheck", "Agree", "C14Spec", "Truth"]
 THEOREM_REQUIRES = ["C14"]
 THEOREMS = ["C14_holds_bool", "C14_target_count", "C14_holds"]
